@@ -1,5 +1,6 @@
 """C01 - hostile server responses never crash or hang a query."""
 from valve_common import *
+from quake_common import quake_specs, quake_case
 
 ID = "C01"
 PROPS_FILE = "C01"
@@ -8,12 +9,12 @@ TRUSTED = [
     "Coq 8.16.1 kernel; theorems closed under the global context, under the stated Section hypothesis that the bzip2 oracle returns a value or an error (bzip2-rs is not verified)",
     "extraction (ExtrOcamlBasic), extract/driver.ml, Rust harness (catch_unwind, subprocess restart on abort, socket-operation cap as hang detector) + scripted transport hook",
     "third-party decoders (bzip2-rs, encoding_rs, std from_utf8) are exercised by the malformed stream, not proved panic-free",
-    "entry points modelled so far: valve::query (and through it every Valve game wrapper); the others are named in coverage.uncovered_entry_points",
+    "entry points modelled so far: valve::query (and through it every Valve game wrapper), quake one/two/three; the others are named in coverage.uncovered_entry_points",
 ]
 RULE = ("malformed stream over Spec-generated valid scripts: truncation at every/ random offsets, extreme values (00, ff, 7f, 80, 16/32-bit extremes) written at random offsets, "
         "dropped / duplicated / swapped / empty / oversized (up to 64 KiB) datagrams, timeouts, deleted terminators, bit flips, random packets; all engines and gather settings, retries 0..2; "
         "non-trivial = the model's outcome is an error other than a receive timeout, or Ok after a mutation; distinct by case bytes")
-UNCOVERED = ["gamespy one/two/three", "quake one/two/three", "unreal2", "minecraft java/bedrock/legacy/auto", "ffow", "savage2", "jc2m", "mindustry",
+UNCOVERED = ["gamespy one/two/three", "unreal2", "minecraft java/bedrock/legacy/auto", "ffow", "savage2", "jc2m", "mindustry",
              "valve master server", "generic dispatch", "eco (HTTP)"]
 
 
@@ -48,6 +49,25 @@ def gen_cases(tier, rng):
             for ti, evs in enumerate(all_truncations(s["dgs"], w, 1 if len(s["dgs"][w]) <= 96 else 7)):
                 cases.append({"id": "trunc/%d/%d/%d" % (s["seed"], w, ti), "hex": assemble(s["settings"], evs, s["bz"]),
                               "meta": {"stream": "all-truncations", "kind": "truncate"}})
+    # Quake 1/2/3: mutations, every truncation, random packets
+    qn = 120 if tier == "quick" else 3000
+    qs = quake_specs([(rng.next() >> 1, 1 + (i % 3)) for i in range(qn)])
+    for q in qs:
+        for j in range(8 if tier == "quick" else 12):
+            kind, evs = mutate([q["dg"]], r)
+            ts = None if r.chance(1, 2) else {"retries": r.below(3)}
+            cases.append({"id": "qmut/%d/%d" % (q["seed"], j), "hex": quake_case(27960, q["ver"], ts, evs),
+                          "meta": {"stream": "quake-mut:" + kind.split("@")[0], "kind": kind}})
+    for q in qs[: (9 if tier == "quick" else 150)]:
+        for ti, evs in enumerate(all_truncations([q["dg"]], 0, 1)):
+            cases.append({"id": "qtrunc/%d/%d" % (q["seed"], ti), "hex": quake_case(27960, q["ver"], None, evs),
+                          "meta": {"stream": "quake-truncations", "kind": "truncate"}})
+    for i in range(300 if tier == "quick" else 10000):
+        v = 1 + r.below(3)
+        hdr = [b"n", b"print\n", b"statusResponse\n"][v - 1]
+        body = r.bytes(r.choice([0, 1, 3, 9, 30]), [0x5c, 0x0a, 0x20, 0x22, 0x00, 0x41, 0x31, 0x2d, 0xff, 0xc3])
+        d = (b"\xff\xff\xff\xff" + hdr + body) if r.chance(3, 4) else r.bytes(r.below(12))
+        cases.append({"id": "qrand/%d" % i, "hex": quake_case(27960, v, None, [d]), "meta": {"stream": "quake-random", "kind": "random"}})
     # random packets over the boundary alphabet
     for i in range(300 if tier == "quick" else 20000):
         n = 1 + r.below(3)
@@ -83,4 +103,4 @@ def nontrivial(case, model):
 
 
 def extra_runs(tier, rng, ctx):
-    return [], {"uncovered_entry_points": UNCOVERED, "covered_entry_points": ["valve::query"]}
+    return [], {"uncovered_entry_points": UNCOVERED, "covered_entry_points": ["valve::query", "quake::one::query", "quake::two::query", "quake::three::query"]}
